@@ -1845,7 +1845,7 @@ func (c *compiler) VisitCastExpr(e *ast.CastExpr) ast.VisitResult {
 				intVal := c.cbb.NewCall(c.functions["ddp_string_to_int"].irFunc, lhs)
 				c.latestReturn = c.cbb.NewTrunc(intVal, ddpbyte)
 			case c.ddpany:
-				primitiveAnyCast(c.ddpinttyp)
+				primitiveAnyCast(c.ddpbytetyp)
 			default:
 				c.err("invalid Parameter Type for ZAHL: %s", lhsTyp.Name())
 			}
